@@ -402,8 +402,43 @@ def ser_spec(spec, items):
     return [",".join(spec["src_ws"]), ",".join(atom(a) for a in spec["tgt_ws"]), ";".join(recs), deps]
 
 
+_CV = {"installed": False, "cur": None, "by_name": {}}
+
+
+def _install_cv_probe():
+    """records, per emitted specification, whether the front end's stack-need estimate (compute_vars) is what the pinned copy of that
+    heuristic yields on the same arguments (classification of the known finding C16-stack-bound-estimate-below-need only)"""
+    if _CV["installed"]:
+        return
+    import pinned_compute_vars, copy as _copy
+    go = impl.gopt
+    real_cv, real_gj = go.compute_vars, go.generate_json
+
+    def cv(tstack, sstack, userdef_ins):
+        try:
+            want = pinned_compute_vars.compute_vars(_copy.deepcopy(tstack), _copy.deepcopy(sstack), _copy.deepcopy(userdef_ins))
+        except Exception:
+            want = None
+        got = real_cv(tstack, sstack, userdef_ins)
+        _CV["cur"] = (got == want)
+        return got
+
+    def gj(*a, **kw):
+        before = set(go.blocks_json_dict) if isinstance(getattr(go, "blocks_json_dict", None), dict) else set()
+        _CV["cur"] = None
+        r = real_gj(*a, **kw)
+        after = set(go.blocks_json_dict) if isinstance(getattr(go, "blocks_json_dict", None), dict) else set()
+        for k in after - before:
+            _CV["by_name"][k] = _CV["cur"]
+        return r
+    go.compute_vars, go.generate_json = cv, gj
+    _CV["installed"] = True
+
+
 def t_spec(t):
     """specifications of a block (per sub-block), the greedy result on each, published bounds"""
+    _install_cv_probe()
+    _CV["by_name"].clear()
     from greedy.block_generation import greedy_from_json
     import copy
     p = params_for(t["opts"])
@@ -440,6 +475,7 @@ def t_spec(t):
                 e["deps"] = spec.get("memory_dependences", []) + spec.get("storage_dependences", [])
                 e["bounds"] = {k2: spec.get(k2) for k2 in ("init_progr_len", "max_progr_len", "max_sk_sz", "min_length", "min_length_instrs",
                                                              "min_length_bounds", "original_instrs", "rules_applied")}
+                e["bounds"]["stack_estimate_is_pinned_heuristic"] = _CV["by_name"].get(name)
             except (vocab.Unsupported, ValueError, KeyError) as ex:
                 e["unsupported"] = "%s: %s" % (type(ex).__name__, ex)
             if t.get("greedy", True) and "spec" in e:
